@@ -767,6 +767,22 @@ fn fri_faults(call: &FriCall, rng: &mut Rng, per_kind: usize) -> Vec<(String, Fr
         c.last_layer[i] += Felt::ONE;
         out.push((format!("last-coefficient[{i}]+1"), c));
     }
+    // a last layer (or one coefficient of it) zeroed: the zero polynomial is a polynomial like any
+    // other and must be compared with the folded values
+    if call.last_layer.iter().any(|c| *c != Felt::ZERO) {
+        let mut c = call.clone();
+        for x in c.last_layer.iter_mut() {
+            *x = Felt::ZERO;
+        }
+        out.push(("last-layer-zeroed".into(), c));
+        for i in sample_idx(rng, call.last_layer.len(), per_kind) {
+            if call.last_layer[i] != Felt::ZERO {
+                let mut c = call.clone();
+                c.last_layer[i] = Felt::ZERO;
+                out.push((format!("last-coefficient-zeroed[{i}]"), c));
+            }
+        }
+    }
     // last-layer length
     let mut c = call.clone();
     c.last_layer.push(Felt::ZERO);
